@@ -7,6 +7,11 @@ Parts
              comparison written in the harness.  Only the C-level text step is replaced by the tree model in
              oracles/json_model.py (in concrete mode / replay the real text `cirq.to_json`/`cirq.read_json` is used
              and the model is compared with `json.loads` of the real text).
+ json.lin.*  EXACT round trip (no tolerance) of cirq.LinearDict and of the values built on it (PauliSum, ProjectorSum,
+             PauliString-family / ProjectorString coefficients) with symbolic real / purely imaginary / complex coefficients
+             over [-10,10] (0, every tiny magnitude, exactly 1e-9 ...), sympy-valued coefficients (enumerated menu) next to
+             symbolic numeric ones, nesting in lists / dicts, and the same exactness for 35 other numeric fields; complex
+             symbolic scalars go through the real CirqEncoder 'complex' branch (oracles/json_model_complex.py).
  eq.*        value_equality contracts on symbolic field values (reflexive on rebuilt copies, symmetric, and
              "equal gates have equal matrices").
  time.*      Duration / Timestamp arithmetic and ordering against the picosecond number.
@@ -26,6 +31,7 @@ import numpy as np
 
 from checks.common import BASE_ASSUMPTIONS, CORE_SHIM_MODULES
 from oracles import json_model as JM
+from oracles import json_model_complex as JMC
 from symx.explore import Obligation
 from symx.hint import hint
 from symx.run import run_check
@@ -472,6 +478,335 @@ def finding_obligations(tier):
         cx.close([c.operations[0].gate.exponent], [t], tol=TOL, label='copy keeps the symbolic exponent')
 
     obs.append(Obligation('finding.moment_copy_tags', copy_tags, twin=lambda cx: copy_tags(cx, True), points=[{'t': 0.5, 'choose:how': 0}, {'t': 1.0, 'choose:how': 2, 'choose:hashed_first': 1}], desc='copy.copy / copy.deepcopy / pickle of a tagged Moment keep .tags (copy.copy dropped them)'))
+    return obs
+
+
+# =================================================================================================
+# part A2: EXACT round trip of LinearDict-backed values and of numeric fields, down to the smallest magnitudes
+# =================================================================================================
+# LinearDict ==, len, `in`, keys() are EXACT (a term is dropped only when its coefficient == 0), so the JSON round trip
+# must return every stored term with exactly its coefficient, however small.  Coefficients are SYMBOLIC over the whole
+# box [-10, 10] -- the box contains 0, 1e-15, exactly 1e-9 (default atol of LinearDict.clean), 1e-8, 1e-7 ... -- real,
+# purely imaginary or complex, and every assertion is an exact equality decided by the solver (cx.check), because the
+# absolute tolerance TOL = 1e-9 of the attribute comparison in json.* hides precisely what a cleaning step removes.
+# (A coefficient is a solver variable itself, NOT variable * 1e-k: symx prunes SNum terms whose constant factor is below
+# 1e-13 as float residue, so scaled terms would silently vanish in symbolic mode.)  The twins are off by a RELATIVE 1e-6.
+# The concrete validation points pin the magnitudes 10**-k, k = 0..15 and 1e-30, 1e-300 (incl. exactly +-1e-9).
+CB = 10.0
+MAGS = [float(f'1e-{k}') for k in range(16)] + [1e-30, 1e-300]
+
+
+def roundtrip_cx(cx, obj):
+    """as roundtrip(), but in symbolic mode a COMPLEX symbolic scalar is not a JSON leaf: it goes through the real
+    CirqEncoder.default ({'cirq_type': 'complex', real, imag}) and the resolver entry 'complex' like a Python complex
+    (oracles/json_model_complex.py)"""
+    if cx.mode == 'concrete':
+        return roundtrip(cx, obj)
+    return JMC.cirq_roundtrip(obj)[0]
+
+
+def EXACT(a, b):
+    """a == b exactly: SBool in symbolic mode, bool otherwise (sympy: structural equality)"""
+    r = a == b
+    if r is NotImplemented:
+        return False
+    return r if isinstance(r, SBool) else bool(r)
+
+
+def NONZERO(c):
+    r = c != 0
+    return r if isinstance(r, SBool) else bool(r)
+
+
+def _coef(cx, tag, kind, lo=-CB, hi=CB):
+    """kind 0: real  s;  1: purely imaginary  i*s;  2: complex  s + i u;  s, u symbolic in [lo, hi]"""
+    if kind == 0:
+        return cx.real(tag + '.re', lo, hi)
+    if kind == 1:
+        return cx.real(tag + '.im', lo, hi) * 1j
+    return cx.real(tag + '.re', lo, hi) + cx.real(tag + '.im', lo, hi) * 1j
+
+
+def _off(c, wrong):
+    return c * (1 + 1e-6) if wrong else c
+
+
+def _lin_checks(cx, lab, got, want, probe):
+    """got: mapping view (vector -> coefficient) of the rebuilt value, `want`: harness dict vector -> coefficient (the
+    oracle: exactly what was put in), probe: vectors that must be absent.  Term by term: exact coefficient, membership
+    iff the coefficient is non-zero, length, key set."""
+    n = 0
+    for v, c in want.items():
+        cx.check(EXACT(got[v], c), label=f'{lab}[{v!s:.40}] is exactly the stored coefficient')
+        nz = NONZERO(c)
+        cx.check(IFF(v in got, nz), label=f'{lab}: ({v!s:.40} in x) iff its coefficient != 0')
+        if bool(nz):
+            n += 1
+    for v in probe:
+        cx.check(as_bool(EXACT(got[v], 0)) and v not in got, label=f'{lab}: absent vector {v!s:.40}')
+    cx.check(len(got) == n, label=f'{lab}: len == number of non-zero terms ({n})')
+    ks = list(got.keys())
+    cx.check(len(ks) == n and all(k in want for k in ks) and len(set(ks)) == n, label=f'{lab}: keys()')
+
+
+def _eq_both(cx, lab, back, obj):
+    cx.check(type(back) is type(obj), label=f'{lab}.type')
+    cx.check(as_bool(back == obj), label=f'{lab}.back==obj')
+    cx.check(as_bool(obj == back), label=f'{lab}.obj==back')
+    ne = back != obj
+    cx.check(~ne if isinstance(ne, SBool) else not ne, label=f'{lab}.not(back!=obj)')
+
+
+def _pts(**fixed):
+    """concrete validation points: every magnitude of MAGS in every coefficient (incl. exactly the 1e-9 threshold), with
+    signs, zeros and mixed magnitudes; variables that are not named are auto-filled inside their boxes"""
+    names = ('a.re', 'b.im', 'c.re', 'c.im')
+    pts = [{**fixed, **{n: m for n in names}} for m in MAGS]
+    pts.append({**fixed, 'a.re': -1e-9, 'b.im': -1e-9, 'c.re': 0.0, 'c.im': 1e-9})
+    pts.append({**fixed, 'a.re': 0.0, 'b.im': 3.7e-12, 'c.re': -2.5e-10, 'c.im': 0.0})
+    pts.append({**fixed, 'a.re': -9.99, 'b.im': 0.0, 'c.re': 6e-10, 'c.im': -8e-10})
+    pts.append({**fixed, 'a.re': 1.0000000001e-9, 'b.im': 0.9999999999e-9, 'c.re': 1e-9, 'c.im': 1e-9})
+    return pts
+
+
+def lin_obligations(tier):
+    import sympy
+
+    import cirq
+
+    obs = []
+    q0, q1, q2 = cirq.LineQubit.range(3)
+    KEYSETS = [('X', 'Y', 'Z', 'W'), (cirq.X, cirq.Y, cirq.CZ**0.5, cirq.H), (q0, q2, cirq.NamedQubit('n'), q1)]
+    a_, b_ = sympy.Symbol('a'), sympy.Symbol('b')
+
+    # ---- LinearDict ---------------------------------------------------------------------------------------------
+    def lin_dict(cx, wrong=False):
+        kx, ky, kz, absent = KEYSETS[cx.choose('keys', len(KEYSETS))]
+        want = {kx: _coef(cx, 'a', 0), ky: _coef(cx, 'b', 1), kz: _coef(cx, 'c', 2)}
+        obj = cirq.LinearDict(dict(want))
+        back = roundtrip_cx(cx, obj)
+        want[kx] = _off(want[kx], wrong)
+        _lin_checks(cx, 'LinearDict', back, want, [absent])
+        if not wrong:
+            _eq_both(cx, 'LinearDict', back, obj)
+        cx.close([back[kx], back[ky], back[kz]], [want[kx], want[ky], want[kz]], tol=TOL, label='LinearDict coefficients')
+
+    obs.append(Obligation('json.lin.LinearDict', lin_dict, twin=lambda cx: lin_dict(cx, True), points=_pts() + _pts(**{'choose:keys': 1})[7:12] + _pts(**{'choose:keys': 2})[8:11], opts={'weight': 4}, desc='cirq.LinearDict({x: a, y: i b, z: c + i d}) with a, b, c, d SYMBOLIC in [-10,10] (the box contains 0 and every tiny magnitude, e.g. exactly 1e-9), keys from 3 menus (str / gates / qubits): read_json(to_json(x)) has EXACTLY every coefficient (no tolerance), `in` iff non-zero, len, keys(), == both ways; an absent vector stays absent'))
+
+    # ---- PauliSum -------------------------------------------------------------------------------------------------
+    UP = [frozenset({(q0, cirq.X), (q1, cirq.Y)}), frozenset({(q2, cirq.Z)}), frozenset(), frozenset({(q0, cirq.Z)})]
+
+    def _pstr(key, c):
+        return cirq.PauliString(dict(key), coefficient=c)
+
+    def pauli_sum(cx, wrong=False):
+        how = cx.choose('how', 3)
+        want = {UP[0]: _coef(cx, 'a', 0), UP[1]: _coef(cx, 'b', 1), UP[2]: _coef(cx, 'c', 2)}
+        if how == 0:
+            obj = cirq.PauliSum(cirq.LinearDict(dict(want)))
+        elif how == 1:
+            obj = cirq.PauliSum.from_pauli_strings([_pstr(k_, c) for k_, c in want.items()])
+        else:
+            obj = want[UP[0]] * (cirq.X(q0) * cirq.Y(q1)) + want[UP[1]] * cirq.Z(q2) + want[UP[2]] * cirq.PauliString()
+        back = roundtrip_cx(cx, obj)
+        want[UP[0]] = _off(want[UP[0]], wrong)
+        _lin_checks(cx, 'PauliSum._linear_dict', back._linear_dict, want, [UP[3]])
+        terms = {frozenset(t.items()): t.coefficient for t in back}  # the public view: PauliStrings with coefficients
+        cx.check(len(terms) == len(back) and all(k_ in want for k_ in terms), label='PauliSum: iteration yields one PauliString per stored term')
+        for k_, c in terms.items():
+            cx.check(EXACT(c, want[k_]), label='PauliSum: iterated PauliString carries exactly the stored coefficient')
+        if not wrong:
+            _eq_both(cx, 'PauliSum', back, obj)
+        cx.close([back._linear_dict[v] for v in UP[:3]], [want[v] for v in UP[:3]], tol=TOL, label='PauliSum coefficients')
+
+    obs.append(Obligation('json.lin.PauliSum', pauli_sum, twin=lambda cx: pauli_sum(cx, True), points=_pts() + _pts(**{'choose:how': 1})[7:13] + _pts(**{'choose:how': 2})[7:13], opts={'weight': 5}, desc='cirq.PauliSum a*X0Y1 + (i b)*Z2 + (c + i d)*I (identity term) built 3 ways (LinearDict constructor / from_pauli_strings / arithmetic), a, b, c, d SYMBOLIC in [-10,10] incl. 0 and every tiny magnitude: the JSON round trip keeps EXACTLY every term (backing LinearDict and iterated PauliStrings), len, == both ways'))
+
+    # ---- ProjectorSum ---------------------------------------------------------------------------------------------------
+    PK = [frozenset({(q0, 0)}), frozenset({(q0, 1), (q1, 0)}), frozenset({(q2, 1)}), frozenset({(q1, 1)})]
+
+    def projector_sum(cx, wrong=False):
+        how = cx.choose('how', 2)
+        want = {PK[0]: _coef(cx, 'a', 0), PK[1]: _coef(cx, 'b', 1), PK[2]: _coef(cx, 'c', 2)}
+        if how == 0:
+            obj = cirq.ProjectorSum(cirq.LinearDict(dict(want)))
+        else:
+            obj = cirq.ProjectorSum.from_projector_strings([cirq.ProjectorString(dict(k_), c) for k_, c in want.items()])
+        back = roundtrip_cx(cx, obj)
+        want[PK[0]] = _off(want[PK[0]], wrong)
+        _lin_checks(cx, 'ProjectorSum._linear_dict', back._linear_dict, want, [PK[3]])
+        if not wrong:
+            _eq_both(cx, 'ProjectorSum', back, obj)
+        cx.close([back._linear_dict[v] for v in PK[:3]], [want[v] for v in PK[:3]], tol=TOL, label='ProjectorSum coefficients')
+
+    obs.append(Obligation('json.lin.ProjectorSum', projector_sum, twin=lambda cx: projector_sum(cx, True), points=_pts() + _pts(**{'choose:how': 1})[7:13], opts={'weight': 4}, desc='cirq.ProjectorSum of three projector strings (LinearDict constructor / from_projector_strings) with SYMBOLIC real / imaginary / complex coefficients in [-10,10]: JSON keeps EXACTLY every term'))
+
+    # ---- single coefficients: PauliString family, ProjectorString ------------------------------------------------------------
+    CO = [
+        ('PauliString', lambda c: cirq.PauliString({q0: cirq.X, q2: cirq.Z}, coefficient=c), lambda x: dict(x.items())),
+        ('PauliString.single_qubit', lambda c: cirq.PauliString({q1: cirq.Y}, coefficient=c), lambda x: dict(x.items())),
+        ('PauliString.identity', lambda c: cirq.PauliString(coefficient=c), lambda x: dict(x.items())),
+        ('MutablePauliString', lambda c: cirq.MutablePauliString({q0: cirq.X, q1: cirq.Y}, coefficient=c), lambda x: dict(x.pauli_int_dict)),
+        ('DensePauliString', lambda c: cirq.DensePauliString('XIZY', coefficient=c), lambda x: list(x.pauli_mask)),
+        ('MutableDensePauliString', lambda c: cirq.MutableDensePauliString('ZX', coefficient=c), lambda x: list(x.pauli_mask)),
+        ('ProjectorString', lambda c: cirq.ProjectorString({q0: 0, q1: 1}, coefficient=c), lambda x: dict(x.projector_dict)),
+    ]
+
+    def coefficient(cx, wrong=False):
+        nm, mk, struct = CO[cx.choose('cls', len(CO))]
+        c = _coef(cx, 'c', cx.choose('kind', 3))
+        obj = mk(c)
+        back = roundtrip_cx(cx, obj)
+        cx.check(EXACT(back.coefficient, _off(c, wrong)), label=f'{nm}.coefficient is exactly the stored one')
+        cx.check(struct(back) == struct(obj), label=f'{nm}: Pauli / projector structure')
+        if not wrong:
+            _eq_both(cx, nm, back, obj)
+        cx.close([back.coefficient], [_off(c, wrong)], tol=TOL, label=f'{nm}.coefficient')
+
+    pts = []
+    for ci in range(len(CO)):
+        pts += [{'choose:cls': ci, 'choose:kind': 0, 'c.re': 1e-9}, {'choose:cls': ci, 'choose:kind': 1, 'c.im': -1e-12}, {'choose:cls': ci, 'choose:kind': 2, 'c.re': 2.5e-15, 'c.im': -0.75e-15}, {'choose:cls': ci, 'choose:kind': 0, 'c.re': 1.0}, {'choose:cls': ci, 'choose:kind': 2, 'c.re': 0.0, 'c.im': 1e-10}, {'choose:cls': ci, 'choose:kind': 0, 'c.re': -1e-300}, {'choose:cls': ci, 'choose:kind': 2}]
+    obs.append(Obligation('json.lin.coefficient', coefficient, twin=lambda cx: coefficient(cx, True), points=pts, opts={'weight': 3}, desc=f'{[c_[0] for c_ in CO]}: coefficient SYMBOLIC in [-10,10], real / purely imaginary / complex (incl. 0, tiny values and 1, which selects the GateOperation-equality branch of PauliString): JSON keeps it EXACTLY, structure and == preserved'))
+
+    # ---- sympy-valued coefficients next to symbolic numeric ones ----------------------------------------------------------------
+    EX = [a_, 2 * a_, a_ + b_, a_**2, a_ / 3, sympy.pi * a_, -a_, a_ * b_ + 1, sympy.Float(1e-12) * a_, a_ * sympy.Rational(1, 10**12), a_ - 1e-10]
+
+    def sym_coeff(cx, wrong=False):
+        e = EX[cx.choose('expr', len(EX))]
+        cls = cx.choose('cls', 4)
+        c = _coef(cx, 'c', 2)
+        if cls == 0:
+            want = {'S': e, 'N': c}
+            obj = cirq.LinearDict(dict(want))
+            view = lambda x: x
+            absent = 'Q'
+        elif cls == 1:
+            want = {UP[0]: e, UP[1]: c}
+            obj = cirq.PauliSum(cirq.LinearDict(dict(want)))
+            view = lambda x: x._linear_dict
+            absent = UP[3]
+        elif cls == 2:
+            want = {PK[0]: e, PK[1]: c}
+            obj = cirq.ProjectorSum(cirq.LinearDict(dict(want)))
+            view = lambda x: x._linear_dict
+            absent = PK[3]
+        else:
+            obj = cirq.PauliString({q0: cirq.X, q2: cirq.Z}, coefficient=e)
+            back = roundtrip_cx(cx, [obj, {'n': c}])
+            # PauliString stores 1.0*e for a sympy coefficient e: same value (difference simplifies to 0), and the
+            # round trip must return the stored expression structurally unchanged
+            cx.check(sympy.simplify(obj.coefficient - (e + 1 if wrong else e)) == 0, label='PauliString(coefficient=e).coefficient has the value e')
+            cx.check(EXACT(back[0].coefficient, obj.coefficient) and sympy.simplify(back[0].coefficient - e) == 0, label='PauliString sympy coefficient')
+            cx.check(EXACT(back[1]['n'], c), label='numeric neighbour in the same document')
+            _eq_both(cx, 'PauliString(sympy)', back[0], obj)
+            return
+        back = roundtrip_cx(cx, obj)
+        if wrong:
+            want[next(iter(want))] = e + 1
+        _lin_checks(cx, 'sympy', view(back), want, [absent])
+        if not wrong:
+            _eq_both(cx, 'sympy-valued', back, obj)
+            if cls == 0:  # PauliSum / ProjectorSum do not implement the parameter-name protocols
+                cx.check(cirq.is_parameterized(back) and cirq.parameter_names(back) == set(cirq.parameter_names(e)), label='parameter names survive')
+
+    pts = [{'choose:expr': i, 'choose:cls': j, 'c.re': [1e-9, -2.5e-12, 0.0][(i + j) % 3], 'c.im': [0.0, 1e-10, -1.0][i % 3]} for i in range(len(EX)) for j in range(4)]
+    obs.append(Obligation('json.lin.sympy_coefficients', sym_coeff, twin=lambda cx: sym_coeff(cx, True), points=pts, opts={'weight': 3}, desc=f'LinearDict / PauliSum / ProjectorSum / PauliString whose coefficient is a sympy expression from the menu {[str(e) for e in EX]} (ENUMERATED: sympy cannot carry solver values) next to a SYMBOLIC complex numeric coefficient in the same value / document: both come back exactly (sympy: structurally equal), parameter names survive'))
+
+    # ---- nested in lists / dicts ------------------------------------------------------------------------------------------------
+    def nested(cx, wrong=False):
+        a, b, c = _coef(cx, 'a', 0), _coef(cx, 'b', 1), _coef(cx, 'c', 2)
+        ld = cirq.LinearDict({'X': a, 'Y': b})
+        psum = cirq.PauliSum(cirq.LinearDict({UP[0]: b, UP[2]: c}))
+        prs = cirq.ProjectorSum(cirq.LinearDict({PK[0]: c, PK[1]: a}))
+        pstr = cirq.PauliString({q1: cirq.Z}, coefficient=c)
+        shape = cx.choose('shape', 3)
+        if shape == 0:
+            doc = [ld, psum, prs, pstr, ld]  # the same object twice
+            back = roundtrip_cx(cx, doc)
+            cx.check(type(back) is list and len(back) == 5, label='nested: list')
+            g_ld, g_ps, g_pr, g_st, g_ld2 = back
+        elif shape == 1:
+            doc = {'ld': ld, 'sums': {'pauli': psum, 'proj': [prs]}, 'str': (pstr,), 'again': [[ld]]}
+            back = roundtrip_cx(cx, doc)
+            cx.check(type(back) is dict and list(back) == ['ld', 'sums', 'str', 'again'], label='nested: dict')
+            g_ld, g_ps, g_pr, g_st, g_ld2 = back['ld'], back['sums']['pauli'], back['sums']['proj'][0], back['str'][0], back['again'][0][0]
+        else:
+            doc = [[[{'k': [ld, {'p': psum}]}]], {'q': [prs, [pstr]]}, ld]
+            back = roundtrip_cx(cx, doc)
+            g_ld, g_ps, g_pr, g_st, g_ld2 = back[0][0][0]['k'][0], back[0][0][0]['k'][1]['p'], back[1]['q'][0], back[1]['q'][1][0], back[2]
+        _lin_checks(cx, 'nested LinearDict', g_ld, {'X': _off(a, wrong), 'Y': b}, ['Z'])
+        _lin_checks(cx, 'nested LinearDict (2nd occurrence)', g_ld2, {'X': a, 'Y': b}, ['Z'])
+        _lin_checks(cx, 'nested PauliSum', g_ps._linear_dict, {UP[0]: b, UP[2]: c}, [UP[1]])
+        _lin_checks(cx, 'nested ProjectorSum', g_pr._linear_dict, {PK[0]: c, PK[1]: a}, [PK[2]])
+        cx.check(EXACT(g_st.coefficient, c), label='nested PauliString.coefficient')
+        if not wrong:
+            for nm, g, o in (('LinearDict', g_ld, ld), ('LinearDict#2', g_ld2, ld), ('PauliSum', g_ps, psum), ('ProjectorSum', g_pr, prs), ('PauliString', g_st, pstr)):
+                _eq_both(cx, 'nested ' + nm, g, o)
+        cx.close([g_ld['X'], g_ps._linear_dict[UP[0]], g_pr._linear_dict[PK[0]]], [_off(a, wrong), b, c], tol=TOL, label='nested coefficients')
+
+    # ---- the same exactness for the other numeric fields of cirq.value / cirq.ops / cirq.study values -----------------------------
+    # (no _json_dict_ there cleans or rounds on the unchanged tree; this family makes sure none starts to: the harness
+    # compares the reloaded FIELD with the constructor argument exactly, independently of the class's own ==)
+    dps = cirq.DensePauliString('XYZ')
+    U, P, S_, H_ = (-4.0, 4.0), (0.0, 1.0), (-3.0, 3.0), (-0.9, 0.9)  # H_: inside the canonical half-turn range (-1, 1]; S_: inside [-pi, pi)
+    FL = [
+        ('XPowGate.exponent', lambda v: cirq.XPowGate(exponent=v), lambda g: g.exponent, U),
+        ('YPowGate.global_shift', lambda v: cirq.YPowGate(exponent=0.5, global_shift=v), lambda g: g.global_shift, U),
+        ('ZPowGate.exponent(dim 3)', lambda v: cirq.ZPowGate(exponent=v, dimension=3), lambda g: g.exponent, U),
+        ('HPowGate.exponent', lambda v: cirq.HPowGate(exponent=v), lambda g: g.exponent, U),
+        ('CZPowGate.exponent', lambda v: cirq.CZPowGate(exponent=v), lambda g: g.exponent, U),
+        ('ISwapPowGate.exponent', lambda v: cirq.ISwapPowGate(exponent=v), lambda g: g.exponent, U),
+        ('ZZPowGate.global_shift', lambda v: cirq.ZZPowGate(exponent=1.5, global_shift=v), lambda g: g.global_shift, U),
+        ('CCXPowGate.exponent', lambda v: cirq.CCXPowGate(exponent=v), lambda g: g.exponent, U),
+        ('Rz.rads', lambda v: cirq.Rz(rads=v), lambda g: g._rads, U),
+        ('Rx.rads', lambda v: cirq.Rx(rads=v), lambda g: g._rads, U),
+        ('PhasedXPowGate.phase_exponent', lambda v: cirq.PhasedXPowGate(phase_exponent=v, exponent=0.5), lambda g: g.phase_exponent, H_),
+        ('PhasedXZGate.z_exponent', lambda v: cirq.PhasedXZGate(x_exponent=0.25, z_exponent=v, axis_phase_exponent=0.5), lambda g: g.z_exponent, U),
+        ('FSimGate.phi', lambda v: cirq.FSimGate(0.5, v), lambda g: g.phi, S_),
+        ('PhasedFSimGate.zeta', lambda v: cirq.PhasedFSimGate(0.5, zeta=v), lambda g: g.zeta, S_),
+        ('PhaseGradientGate.exponent', lambda v: cirq.PhaseGradientGate(num_qubits=2, exponent=v), lambda g: g.exponent, U),
+        ('DiagonalGate.angle', lambda v: cirq.DiagonalGate([0.5, v]), lambda g: g.diag_angles_radians[1], U),
+        ('TwoQubitDiagonalGate.angle', lambda v: cirq.TwoQubitDiagonalGate([v, 0.5, 1.0, 0.25]), lambda g: g._diag_angles_radians[0], U),
+        ('BooleanHamiltonianGate.theta', lambda v: cirq.BooleanHamiltonianGate(['a', 'b'], ['a ^ b'], v), lambda g: g._theta, U),
+        ('PauliStringPhasor.exponent_neg', lambda v: cirq.PauliStringPhasor(cirq.X(q0) * cirq.Z(q1), exponent_neg=v, exponent_pos=0.5), lambda g: g.exponent_neg, H_),
+        ('PauliStringPhasorGate.exponent_pos', lambda v: cirq.PauliStringPhasorGate(dps, exponent_neg=0.25, exponent_pos=v), lambda g: g.exponent_pos, H_),
+        ('ControlledGate(X**v)', lambda v: cirq.ControlledGate(cirq.X**v), lambda g: g.sub_gate.exponent, U),
+        ('GateOperation(CZ**v)', lambda v: (cirq.CZ**v).on(q0, q2), lambda o: o.gate.exponent, U),
+        ('BitFlipChannel.p', lambda v: cirq.BitFlipChannel(v), lambda g: g.p, P),
+        ('PhaseFlipChannel.p', lambda v: cirq.PhaseFlipChannel(v), lambda g: g.p, P),
+        ('DepolarizingChannel.p', lambda v: cirq.DepolarizingChannel(v), lambda g: g.p, P),
+        ('AsymmetricDepolarizingChannel.p_y', lambda v: cirq.AsymmetricDepolarizingChannel(0.125, v * 0.5, 0.25), lambda g: g.p_y * 2, P),
+        ('AmplitudeDampingChannel.gamma', lambda v: cirq.AmplitudeDampingChannel(v), lambda g: g.gamma, P),
+        ('PhaseDampingChannel.gamma', lambda v: cirq.PhaseDampingChannel(v), lambda g: g.gamma, P),
+        ('GeneralizedAmplitudeDampingChannel.gamma', lambda v: cirq.GeneralizedAmplitudeDampingChannel(0.5, v), lambda g: g.gamma, P),
+        ('RandomGateChannel.probability', lambda v: cirq.RandomGateChannel(sub_gate=cirq.X, probability=v), lambda g: g.probability, P),
+        ('Duration.picos', lambda v: cirq.Duration(picos=v), lambda d: d.total_picos(), U),
+        ('WaitGate.duration', lambda v: cirq.WaitGate(cirq.Duration(picos=v)), lambda g: g.duration.total_picos(), P),
+        ('ParamResolver.value', lambda v: cirq.ParamResolver({'x': v, 'y': 1.0}), lambda r: r.param_dict['x'], S_),
+        ('Points.point', lambda v: cirq.Points('k', [1.0, v]), lambda sw: sw.points[1], S_),
+        ('Linspace.start', lambda v: cirq.Linspace('k', v, 1.0, 3), lambda sw: sw.start, S_),
+    ]
+
+    def exact_field(cx, wrong=False):
+        nm, mk, get, (lo, hi) = FL[cx.choose('field', len(FL))]
+        v = cx.real('v', lo, hi)
+        obj = mk(v)
+        back = roundtrip_cx(cx, obj)
+        cx.check(EXACT(get(back), _off(get(obj), wrong)), label=f'{nm} comes back exactly as stored')
+        if cx.mode == 'sym':  # exact real arithmetic: the stored field IS the argument (constructors that canonicalise
+            # modulo a period do it in floating point, so at the concrete points this holds up to rounding: cx.close below)
+            cx.check(EXACT(get(back), _off(v, wrong)), label=f'{nm} comes back exactly as given')
+        if not wrong:
+            _eq_both(cx, nm, back, obj)
+        cx.close([get(back)], [_off(v, wrong)], tol=TOL, label=nm)
+
+    pts = []
+    for fi in range(len(FL)):
+        pts += [{'choose:field': fi, 'v': m} for m in (1e-9, 1e-12, 0.0, 1e-300, 0.9999999999e-9)] + [{'choose:field': fi}]
+        if FL[fi][3][0] < 0:
+            pts += [{'choose:field': fi, 'v': -1e-9}, {'choose:field': fi, 'v': -3e-15}]
+    obs.append(Obligation('json.lin.exact_fields', exact_field, expected=(ValueError,), twin=lambda cx: exact_field(cx, True), points=pts, opts={'weight': 4}, desc=f'{len(FL)} numeric fields of cirq.ops / cirq.value / cirq.study values ({", ".join(f[0] for f in FL)}), field value SYMBOLIC over its whole box (incl. 0 and every tiny magnitude): the reloaded field equals the constructor argument EXACTLY (harness comparison, no tolerance), == both ways'))
+
+    obs.append(Obligation('json.lin.nested', nested, twin=lambda cx: nested(cx, True), points=_pts() + _pts(**{'choose:shape': 1})[7:13] + _pts(**{'choose:shape': 2})[7:13], opts={'weight': 5}, desc='LinearDict, PauliSum, ProjectorSum and PauliString sharing SYMBOLIC coefficients a, i b, c + i d (all in [-10,10], incl. 0 and tiny), placed in 3 document shapes (flat list with a repeated object / dict of dicts, lists, tuple / depth-4 mix): every nested value comes back with exactly its terms'))
     return obs
 
 
@@ -942,6 +1277,7 @@ def _sweep_leaves(sw):
 def obligations(tier):
     obs = []
     obs += json_obligations(tier)
+    obs += lin_obligations(tier)
     obs += finding_obligations(tier)
     obs += time_obligations(tier)
     obs += eq_obligations(tier)
@@ -981,6 +1317,7 @@ def main(tier, seed=0, replay=None, only=None, procs=None):
 
     bounds = {
         'symbolic': 'every real/integer field named in the obligation (exponents in [-4,4], shifts [-1,1], radians [-7,7], probabilities [0,1], picoseconds, integer fields in their listed ranges); key.*: key name / path / prefix strings (two free strings of length <= 2 quick / <= 3 thorough, or one of length <= 3 / 4)',
+        'json.lin': 'json.lin.*: every coefficient / field is a solver variable over its WHOLE box (coefficients: real, purely imaginary i*s, complex s + i*u with s, u in [-10,10]; fields: exponents [-4,4], probabilities [0,1], angles (-3,3), half-turn fields (-0.9,0.9)), so 0, exactly 1e-9 (default atol of LinearDict.clean) and all smaller magnitudes are inside; assertions are exact equalities decided by z3 (term-by-term coefficient, `in` iff non-zero, len, keys(), == both ways), twins are off by a relative 1e-6. Enumerated: 3 key menus (str / gates / qubits), 3 ways to build a PauliSum, 2 ways to build a ProjectorSum, 7 coefficient-carrying classes x 3 coefficient kinds, 11 sympy expressions x 4 classes, 3 document shapes (nesting depth <= 4), 35 (class, field) pairs; concrete validation points pin 10**-k for k = 0..15, 1e-30, 1e-300, +-1e-9 and values just above / below 1e-9',
         'enumerated': 'finite selectors per obligation (dimension, omitted-when-default switches, control values, repetition-id modes, sweep tree shapes); one representative structure per class (qubits, keys, Pauli masks are concrete); hist.*: ALL step sequences of length 2 (quick) / 3 (thorough) over the listed menus = solver-driven bounded exploration',
         'tolerance': TOL,
         'outside': [
@@ -991,6 +1328,7 @@ def main(tier, seed=0, replay=None, only=None, procs=None):
             'numpy/pandas payload classes (Result, BitstringAccumulator, TensoredConfusionMatrices, CliffordTableau, ...), protobuf-backed classes (Calibration, GridDevice), device / noise-property classes, Gateset/GateFamily',
             'hash VALUES of symbolic numbers and of symbolic strings: hash agreement is decided only at concrete validation points / replays (json.*, eq.*) and in hist.*; Duration.__hash__ (goes through datetime.timedelta)',
             'MeasurementKey path components containing the separator ":" (precondition of key.*)',
+            'json.lin.*: cirq.LinearCombinationOfGates / LinearCombinationOfOperations (LinearDict with a validator: to_json raises ValueError by design, nothing to round-trip); symbolic quantities INSIDE sympy coefficients (sympy cannot carry solver values: expressions come from a menu); LinearDict key types other than str / gates / qubits; numeric constants below 1e-13 in the code under test (symx prunes SNum terms with such constant factors as float residue, so e.g. a cleaning threshold of 1e-14 is seen only at the concrete validation points)',
         ],
     }
     root = os.path.dirname(os.path.dirname(os.path.abspath(__file__)))
@@ -1053,6 +1391,7 @@ def main(tier, seed=0, replay=None, only=None, procs=None):
 
 CH_ASSUMPTIONS = [
     "json.*: the json module is replaced by the documented tree semantics (oracles/json_model.py): dict -> object with str keys in insertion order, list/tuple -> array, default(o) for everything else, object_hook on every decoded object, inner objects first; symbolic scalars are leaves standing for the float/int/bool the caller would pass; resolver entry 'complex' keeps symbolic parts",
+    "json.lin.*: same tree model, except that a symbolic scalar with an imaginary part stands for a Python complex and is therefore NOT a leaf: it is handed to the real CirqEncoder.default ('complex' branch) and rebuilt by the resolver entry 'complex' (oracles/json_model_complex.py)",
     'key.*: CrossHair 0.0.110 is trusted for "Confirmed over all paths"; string lengths bounded as listed; hash() of symbolic strings is not used in the contracts',
     'hist.*: bounded exploration: step menus and history length are finite; symbolic ingredients are the gate exponent / resolver value carried through every step',
 ]
